@@ -40,7 +40,11 @@ EventOK(e) == CASE e.k = "str" -> StrOK(e)
                 [] e.k = "sort" -> SortOK(e)
                 [] OTHER -> FALSE
 
-OInit == l \in 1..Len(Tr)
-ONext == UNCHANGED l
-Check == EventOK(Tr[l]) \/ PrintT(<<"MISMATCH", l>>)
+\* one state per event; events are reached through NB block states so that all TLC workers share the evaluation
+NB == 64
+BSize == (Len(Tr) + NB - 1) \div NB
+OInit == l = 0
+ONext == \/ l = 0 /\ l' \in {0 - b : b \in 1..NB}
+         \/ l < 0 /\ l' \in {i \in (((0 - l) - 1) * BSize + 1)..((0 - l) * BSize) : i <= Len(Tr)}
+Check == l <= 0 \/ EventOK(Tr[l]) \/ PrintT(<<"MISMATCH", l>>)
 =============================================================================
